@@ -7,6 +7,16 @@ use boa_ast::{
 impl ByteCompiler<'_> {
     /// Compile a [`Labelled`] `boa_ast` node
     pub(crate) fn compile_labelled(&mut self, labelled: &Labelled, use_expr: bool) {
+        if let LabelledItem::Statement(
+            Statement::ForLoop(_)
+            | Statement::ForInLoop(_)
+            | Statement::ForOfLoop(_)
+            | Statement::WhileLoop(_)
+            | Statement::DoWhileLoop(_),
+        ) = labelled.item()
+        {
+            self.reset_completion_value();
+        }
         let labelled_loc = self.next_opcode_location();
         self.push_labelled_control_info(labelled.label(), labelled_loc, use_expr);
 
